@@ -19,6 +19,16 @@ if "def" in ast.unparse(ast.parse("𝕕𝕖𝕗 = 1")):
 
     true_unparse = ast.unparse
 
+    def mince(v):
+        # We refer to this transformation as "keyword mincing"
+        # in documentation.
+        return (
+            chr(ord(v[0]) - ord("a") + ord("𝐚")) + v[1:]
+            if type(v) is str
+                and keyword.iskeyword(v)
+                and v not in ("True", "False", "None")
+            else v)
+
     def rewriting_unparse(ast_obj):
         ast_obj = copy.deepcopy(ast_obj)
         for node in ast.walk(ast_obj):
@@ -27,14 +37,11 @@ if "def" in ast.unparse(ast.parse("𝕕𝕖𝕗 = 1")):
                 continue
             for field in node._fields:
                 v = getattr(node, field, None)
-                if (
-                    type(v) is str
-                    and keyword.iskeyword(v)
-                    and v not in ("True", "False", "None")
-                ):
-                    # We refer to this transformation as "keyword mincing"
-                    # in documentation.
-                    setattr(node, field, chr(ord(v[0]) - ord("a") + ord("𝐚")) + v[1:])
+                if type(v) is str:
+                    setattr(node, field, mince(v))
+                elif type(v) is list:
+                    # E.g., the `names` of `ast.Global`.
+                    setattr(node, field, list(map(mince, v)))
         return true_unparse(ast_obj)
 
     ast.unparse = rewriting_unparse
